@@ -423,9 +423,10 @@ class C12(Prop):
                                      '""\n- i1\n- i2\n""', '<div class="a">\n<p class="b" style="c:d">x</p>\n</div>'])
                 yield {'merge': True, 'with': "{mm} = 'MM'\n\n" + line + '\n' + target + '\n\nnext *para*', 'safeMode': mode}
                 continue
-            if rng.random() < 0.2:
-                # block options: each alters the processing of the next block only; `-specials` is refused in a non-zero safe
-                # mode and the options after it on the line still apply
+            if rng.random() < 0.25:
+                # block options: each alters the processing of the next block only (also when it merely repeats that block's
+                # default); `-specials` is refused in a non-zero safe mode and the options after it on the line still apply;
+                # the block after the target is of the other kind, so that a leaked option shows
                 opts = rng.sample(['-macros', '-spans', '-specials', '+skip', '+macros', '+spans'], rng.randint(1, 4))
                 if '+macros' in opts and '-macros' in opts:
                     opts.remove('+macros')
@@ -433,8 +434,12 @@ class C12(Prop):
                     opts.remove('+spans')
                 sep = rng.choice([' ', ' ', '  '])
                 line = '.' + rng.choice(['', 'k1 ']) + sep.join(opts)
-                yield {'options': opts, 'with': "{mm} = 'MM'\n\n%s\nT {mm} *b* &c\n\nafter {mm} *x*" % line, 'safeMode': mode,
-                       'cls': 'k1 ' in line}
+                kinds = rng.choice([('para', 'code'), ('code', 'para'), ('para', 'para'), ('code', 'code')])
+                body = {'para': 'T {mm} *b* &c', 'code': '```\nT {mm} *b* &c\n```'}
+                between = rng.choice(['', '', '// comment\n\n', '- item\n\n', '# Head\n\n'])
+                yield {'options': opts, 'kinds': list(kinds), 'between': between,
+                       'with': "{mm} = 'MM'\n\n%s\n%s\n\n%s%s" % (line, body[kinds[0]], between, body[kinds[1]]),
+                       'safeMode': mode, 'cls': 'k1 ' in line}
                 continue
             classes, pid, css, attrs = [], None, [], []
             skip = False
@@ -514,17 +519,38 @@ class C12(Prop):
             applied = not (mode & 4)
             defined = mode == 0 or bool(mode & 8)
             mm = 'MM' if defined else '{mm}'
-            text = 'T %s *b* &c' % (mm if not ('-macros' in O and applied) else '{mm}')
-            if not ('-spans' in O and applied):
-                text = text.replace('*b*', '<em>b</em>').replace('&c', '&amp;c')
-            elif not ('-specials' in O and applied and mode == 0):
-                text = text.replace('&c', '&amp;c')
+
+            def block(kind, opts, cls):
+                macros, spans, specials = (True, True, True) if kind == 'para' else (False, False, True)
+                if '+macros' in opts:
+                    macros = True
+                if '-macros' in opts:
+                    macros = False
+                if '+spans' in opts:
+                    spans = True
+                if '-spans' in opts:
+                    spans = False
+                if '-specials' in opts and mode == 0:
+                    specials = False
+                if '+skip' in opts:
+                    return ''
+                text = 'T %s *b* &c' % (mm if macros else '{mm}')
+                if spans:
+                    text = text.replace('*b*', '<em>b</em>').replace('&c', '&amp;c')
+                elif specials:
+                    text = text.replace('&c', '&amp;c')
+                return ('<p%s>%s</p>' if kind == 'para' else '<pre%s><code>%s</code></pre>') % (cls, text)
             cls = ' class="k1"' if case['cls'] and applied else ''
-            first = '' if ('+skip' in O and applied) else '<p%s>%s</p>' % (cls, text)
-            # a skipped block leaves the class pending for the next block
-            cls2 = cls if ('+skip' in O and applied) else ''
-            second = '<p%s>after %s <em>x</em></p>' % (cls2, mm)
-            expected = (first + '\n' + second) if first else second
+            k1, k2 = case['kinds']
+            first = block(k1, O if applied else [], cls)
+            between = {'': '', '// comment\n\n': '', '- item\n\n': '<ul%s><li>item</li></ul>', '# Head\n\n': '<h1%s>Head</h1>'}[case['between']]
+            # a skipped block leaves the class pending for the next block that emits a tag
+            cls2 = cls if not first else ''
+            if between:
+                between = between % cls2
+                cls2 = ''
+            second = block(k2, [], cls2)
+            expected = first + between + second
             if nonl(a[0][1]) != nonl(expected):
                 res.violation('block options did not alter exactly the processing of the next block', case,
                               {'output': a[0][1], 'expected': expected})
